@@ -182,6 +182,9 @@ class FakeTransport:
         self._expected_packet = tuple()
         self.K = self.H = None
         self.session_id = sc.get("sid")  # a re-exchange: the session id of the first exchange is already set
+        self.authenticated = bool(sc.get("authed"))  # exchanges happen before and after user authentication
+        self.active = True
+        self.in_kex = True
         self.trace = trace
 
     def _log(self, *a, **k):
@@ -315,7 +318,8 @@ def run_scenario(sc):
             except Exception as e:  # classified, compared with the model
                 dead = classify(e)
     exp = ",".join(str(t) for t in ft._expected_packet) or "-"
-    return " ".join(trace) + " | " + (dead or "ok") + " | " + exp
+    sid = "none" if ft.session_id is None else hx(ft.session_id)
+    return " ".join(trace) + " | " + (dead or "ok") + " | " + exp + " | " + sid
 
 
 def scenario_line(sc):
@@ -329,9 +333,10 @@ def scenario_line(sc):
         en = fam
     md = "none" if sc["modulus"] is None else "%d:%d" % sc["modulus"]
     pk = " ".join("%d:%s:%d" % (t, hx(b), x) for t, b, x in sc["pkts"])
-    return ("kex %s %s %s %s %s %s %s %s %s %d %s %s %s" % (
+    sid = "none" if sc.get("sid") is None else hx(sc["sid"])
+    return ("kex %s %s %s %s %s %s %s %s %s %d %s %s %s %s" % (
         en, sc["role"], sc["mode"], hx(sc["lv"]), hx(sc["rv"]), hx(sc["lk"]), hx(sc["rk"]), hx(sc["hostkey"]),
-        hx(sc["algo"]), sc["x"], sc["verify"], md, pk)).rstrip()
+        hx(sc["algo"]), sc["x"], sc["verify"], md, sid, pk)).rstrip()
 
 
 # ------------------------------------------------------------------------------------------ wire helpers
@@ -357,8 +362,14 @@ def raw_mpint(z):
 
 def parse_trace(text):
     """canonical text -> (effects list, status, expected)"""
-    tr, status, exp = text.split(" | ")
+    parts = text.split(" | ")
+    tr, status, exp = parts[0], parts[1], parts[2]
     return (tr.split(" ") if tr else []), status, exp
+
+
+def final_sid(text):
+    """the transport's session_id after the run ('none' or hex)"""
+    return text.split(" | ")[3]
 
 
 def derived(text):
@@ -378,7 +389,7 @@ def base_scenario(rng, engine, role, mode="gate"):
             "hostkey": rng.randbytes(rng.randrange(1, 30)),
             "algo": rng.choice([b"ssh-ed25519", b"rsa-sha2-512", b"ecdsa-sha2-nistp256", b"toy"]),
             "x": 2, "verify": rng.choice(["yes", "yes", "toy", "no"]), "modulus": None, "pkts": [], "old": False,
-            "sid": rng.choice([None, None, b"first-exchange-hash"])}
+            "sid": rng.choice([None, None, b"first-exchange-hash"]), "authed": rng.random() < 0.4}
 
 
 def boundary_values(rng, p, extra_random=3):
@@ -595,12 +606,12 @@ class E2E:
             return self.cv.wait_for(lambda: len(self.log["c"]) >= n and len(self.log["s"]) >= n
                                     and self.done["c"] >= n and self.done["s"] >= n, timeout)
 
-    def handshake(self, timeout=30):
+    def handshake(self, timeout=30, server=None):
         """returns None on success, the client's exception otherwise (server failures: see ts)"""
         import paramiko
 
         ev = threading.Event()
-        self.ts.start_server(event=ev, server=paramiko.ServerInterface())
+        self.ts.start_server(event=ev, server=server or paramiko.ServerInterface())
         try:
             self.tc.start_client(timeout=timeout)
         except Exception as e:  # the observable of the property
@@ -713,6 +724,22 @@ def mirror(c):
     return s
 
 
+class HonestFailed(Exception):
+    """an undisturbed exchange between the two real engines did not produce the next message"""
+
+    def __init__(self, stage, c, s, ctext, stext):
+        Exception.__init__(self, stage)
+        self.stage, self.c, self.s, self.ctext, self.stext = stage, c, s, ctext, stext
+
+
+def _nth_send(stage, who, n, c, s):
+    ctext, stext = run_scenario(c), run_scenario(s)
+    out = sends(ctext if who == "c" else stext)
+    if len(out) <= n:
+        raise HonestFailed(stage, c, s, ctext, stext)
+    return out[n]
+
+
 def honest(rng, engine, old=False):
     """(client scenario, server scenario): the two real engines talking to each other, no interference"""
     c = base_scenario(rng, engine, "c")
@@ -723,9 +750,9 @@ def honest(rng, engine, old=False):
     if fam != "gex":
         P = engine_class(c).P if fam == "grp" else TOY_Q
         c["x"], s["x"] = rand_x(rng, P), rand_x(rng, P)
-        init = sends(run_scenario(c))[0]
+        init = _nth_send("client INIT", "c", 0, c, s)
         s["pkts"] = [(30, init[1:], 0)]
-        reply = sends(run_scenario(s))[0]
+        reply = _nth_send("server REPLY", "s", 0, c, s)
         c["pkts"] = [(31, reply[1:], 0)]
         if fam == "grp":
             s["peer_value"], s["modulus_p"] = split_fields(init, "m")[0], P
@@ -735,13 +762,13 @@ def honest(rng, engine, old=False):
     p = random_odd(rng, bits)
     g = rng.choice([2, 5, 3, p - 2])
     s["modulus"] = (g, p)
-    req = sends(run_scenario(c))[0]
+    req = _nth_send("client GEX_REQUEST", "c", 0, c, s)
     s["pkts"] = [(req[0], req[1:], 0)]
-    group = sends(run_scenario(s))[0]
+    group = _nth_send("server GEX_GROUP", "s", 0, c, s)
     c["pkts"] = [(31, group[1:], rand_x(rng, p))]
-    init = sends(run_scenario(c))[1]
+    init = _nth_send("client GEX_INIT", "c", 1, c, s)
     s["pkts"].append((32, init[1:], rand_x(rng, p)))
-    reply = sends(run_scenario(s))[1]
+    reply = _nth_send("server GEX_REPLY", "s", 1, c, s)
     c["pkts"].append((33, reply[1:], 0))
     return c, s
 
